@@ -1,8 +1,11 @@
 ------------------------------- MODULE X03Base -------------------------------
 (* X03: small shared vocabulary of GroFile / PdbqtFile / TextFileOps / Dispatch on top of
    specs/lib/FixedCols (texts = sequences of one-character strings). *)
-EXTENDS FixedCols
+EXTENDS FixedCols, TLC
 
+(* TLC evaluates function constructors lazily (the body is run again at every application) and may
+   re-evaluate LET definitions at every use: Eval forces a value once, Bind (FixedCols) names it *)
+Eval(v) == TLCEval(v)
 Idx(n) == [k \in 1..n |-> k]
 MaxOf(X) == CHOOSE x \in X : \A y \in X : y <= x
 MinOf(X) == CHOOSE x \in X : \A y \in X : x <= y
